@@ -66,7 +66,7 @@ def history(rng, length):
             p += 1
             kind = rng.choice(['map', 'map_unordered', 'imap', 'imap_unordered'])
             ops.append({'op': kind, 'n': rng.randint(2, 6), 'chunk_size': 1, 'elem': 'scalar', 'input': rng.choice(['list', 'list', 'nd']) if kind in ('map', 'imap') else 'list',
-                        'bad_arg': rng.choice(['chunk_size', 'n_splits', 'max_tasks_active', 'worker_lifespan', 'task_timeout']), 'expect_rejected': True})
+                        'bad_arg': rng.choice(['chunk_size', 'n_splits', 'max_tasks_active', 'worker_lifespan', 'task_timeout', 'bar_option', 'bar_option']), 'expect_rejected': True})
             if ops[-1]['bad_arg'] == 'n_splits':
                 ops[-1].pop('chunk_size')
             mops.append('C:%d:%d:rejected:0:-' % (kind in ('map', 'imap'), p))
@@ -288,7 +288,8 @@ def run(chk):
                 chk.violation('input_error_surfaces', {'scenario': sc}, {'op': opi, 'outcome': oo.get('outcome'), 'raised': oo.get('exc')},
                               'an exception raised by the input iterable reaches the caller', input_class='input_error')
             if op.get('expect_rejected'):
-                if oo.get('outcome') != 'raise' or (oo.get('exc') or {}).get('type') not in ('TypeError', 'ValueError'):
+                # (a bad progress-bar option is rejected with tqdm's own error class, also when no bar is shown)
+                if oo.get('outcome') != 'raise' or ((oo.get('exc') or {}).get('type') not in ('TypeError', 'ValueError') and op.get('bad_arg') != 'bar_option'):
                     chk.violation('invalid_arguments_rejected', {'scenario': sc}, {'op': opi, 'outcome': oo.get('outcome'), 'raised': oo.get('exc')},
                                   'a call with an invalid argument is rejected with TypeError/ValueError', input_class='not_rejected')
                 continue
@@ -353,8 +354,25 @@ def run(chk):
             first['consume'] = rng.randint(1, 2)
             first['abandon'] = 'close'          # the pool's clean-up of a lazy call that is closed early runs in a deferred section
         later = [{'op': rng.choice(['map', 'map_unordered', 'imap']), 'n': rng.randint(2, 8), 'chunk_size': 1} for _k in range(rng.randint(1, 2))]
+        if rng.random() < .5:
+            later[0]['worker_lifespan'] = rng.choice([1, 2])       # the next call replaces its workers as it goes
+            later[0]['n'] = rng.randint(2 * nj, 4 * nj)
         sh.append({'seed': rng.randint(0, 10 ** 6), 'pool': {'n_jobs': nj, 'start_method': rng.choice(['fork', 'fork', 'threading']), 'keep_alive': rng.random() < .5},
                    'ops': [first] + later, 'same_func': False, 'relax_shape': True, 'inject': [{'kind': 'sigint', 'point': rng.randint(3, 260)}]})
+    # … in particular at every scheduling point of the caller while the call winds down (workers told to stop, queues joined, helper
+    # threads stopped): a few calls swept exhaustively over their last points
+    from harness import inject as _inject
+    bases = []
+    for _ in range(2 if chk.tier == 'quick' else 12):
+        nj = rng.choice([2, 3])
+        bases.append({'seed': rng.randint(0, 10 ** 6), 'pool': {'n_jobs': nj, 'start_method': 'fork'}, 'same_func': False, 'relax_shape': True,
+                      'ops': [{'op': rng.choice(['map', 'map_unordered']), 'n': rng.randint(3, 6), 'chunk_size': 1, 'dur': {'kind': 'hash', 'salt': rng.randint(0, 99), 'unit': 0.01}},
+                              {'op': 'map', 'n': rng.randint(2 * nj, 4 * nj), 'chunk_size': 1, 'worker_lifespan': 1}]})
+    for _b, _bo in zip(bases, _inject.baseline(bases)):
+        if _bo.get('stuck') or _bo.get('harness_error') or not _bo.get('ops'):
+            continue
+        end = _bo['ops'][0].get('main_points_end') or 0
+        sh += _inject.sigint_sweep(_b, _bo, lo=max(1, end - 45), hi=end)
     sobs = run_scenarios(chk, 'a call interrupted by Ctrl-C, then more calls on the same pool (DetSim)', sh, {'C01', 'C02', 'C03'},
                          nontrivial=lambda sc, o: bool(o.get('injected')),
                          dist=lambda sc, o: {'interrupt_landed_in_op': (o.get('injected') or {}).get('opi', 'x') if False else str(next((i for i, x in enumerate(o.get('ops', [])) if (x.get('exc') or {}).get('type') == 'KeyboardInterrupt'), 'none')),
